@@ -47,7 +47,7 @@ def constraint(rng, unsupported=False):
 
 
 def constraints(rng, unsupported=False):
-    n = rng.choice([0, 0, 0, 1, 1, 2])
+    n = rng.choice([0, 0, 0, 1, 1, 2, 2, 3, 4, 5])      # chains of any length
     if n == 0:
         return ''
     return '{' + ', '.join(constraint(rng, unsupported) for _ in range(n)) + '}'
@@ -141,12 +141,14 @@ def malformed(rng, text):
         return ' '.join(toks)
     if k < 0.85:
         i = rng.randrange(len(text) + 1)
-        return text[:i] + rng.choice(['x', '{', '}', ' ', '\n', '9', ',', '²', 'é', 'Ω', '٣', '_', '$', '\x00', '  labeled '] + TAILS) + text[i:]
+        return text[:i] + rng.choice(['x', '{', '}', ' ', '\n', '9', ',', '²', 'é', 'Ω', '٣', '_', '$', '\x00', '  labeled '] + TAILS + PUNCT) + text[i:]
     n = rng.randint(0, 25)
     return ''.join(rng.choice(list('fragment a{C labeled c1}$?+-.:!<>=0123456789 \n\t') + ['é', '²', '٣']) for _ in range(n))
 
 
 TAILS = ['\r', '\x0b', '\x0c', '\x1c', '\x85', '\xa0', '\u2003', '\u2028', '\u3000', '\r\n']
+# comment-like and other punctuation a tokenizer extension could be tempted to swallow
+PUNCT = ['//', '// c', '#', '# c', '/*', '*/', '--', ';', '%', '\\', '/', '//\n', '"', "'"]
 FIXED = ['', ' ', '\n\n', 'fragment', 'fragment a', 'fragment a{', 'fragment a{C', 'fragment a{C labeled', 'fragment a{C labeled c1',
          'fragment a{C labeled c1}', 'fragment a{C labeled c1} x', 'fragment a{C labeled c1}}', 'fragment a{C labeled c1} fragment b{C labeled c1}',
          'fragment a{c labeled c1}', 'fragment a{c? labeled c1}', 'fragment a{Xx labeled c1}', 'fragment a{C labeled c1 {connected to group x}}',
@@ -166,6 +168,8 @@ FIXED = ['', ' ', '\n\n', 'fragment', 'fragment a', 'fragment a{', 'fragment a{C
 
 FIXED += ['fragment a{C labeled c1 C labeled c2 single bond to c1}%sjunk' % t for t in TAILS]
 FIXED += ['fragment a{C labeled c1}%s' % t for t in TAILS]
+FIXED += ['fragment a{C labeled c1} %s' % t for t in PUNCT] + ['%s' % t for t in PUNCT] + ['fragment a{C labeled c1 %s}' % t for t in PUNCT]
+FIXED += ['rule r1{ reactant r{ C labeled c1 H labeled h1 single bond to c1} break bond (c1,h1) increase number of radical (c1) increase number of radical (h1) %s}' % t for t in PUNCT[:4]]
 FIXED += ['fragment a{C labeled c1 C labeled c2 %s bond to c2}' % b for b in BONDS[1:]]
 FIXED += ['fragment a{C labeled c1 C labeled c2 single bond to c1 C labeled c3 double bond to c3}',
           'fragment a{C labeled c1 C labeled c2 single bond to c1 ringbond c1 single bond to c2}',
